@@ -16,8 +16,9 @@ def make_program(rnd):
             prog['flows'].append((c['code'], c['gov'], c['code'], c['hh'], 'GIFT', repr(round(rnd.uniform(0.2, 2.0), 3))))
         if rnd.random() < 0.4:
             # the SAME amount variable paid to two recipients
-            prog['flows'].append((c['code'], c['hh'], c['code'], c['gov'], 'GIFT2', repr(round(rnd.uniform(0.2, 1.0), 3))))
-            prog['flows'].append((c['code'], c['hh'], c['code'], c['roles']['bus'], 'GIFT2', repr(round(rnd.uniform(0.2, 1.0), 3))))
+            inc = rnd.random() < 0.6
+            prog['flows'].append((c['code'], c['hh'], c['code'], c['gov'], 'GIFT2', repr(round(rnd.uniform(0.2, 1.0), 3)), inc))
+            prog['flows'].append((c['code'], c['hh'], c['code'], c['roles']['bus'], 'GIFT2', repr(round(rnd.uniform(0.2, 1.0), 3)), inc))
         if c['variant'] == 'pc' and rnd.random() < 0.7:
             # a holder whose deposits are a placeholder '0.0' made exogenous (like government demand)
             prog['pension'] = (c['code'], '[%s]' % ', '.join(repr(round(rnd.uniform(2, 9), 1)) for _ in range(12)))
